@@ -91,6 +91,26 @@ def _check_reports(vs, who, got, finals, flushed):
         vs.append(V("report-content", who + "-incomplete", "incomplete reports %r, model expects %r" % (rest, want_x)))
 
 
+def _enum_many_open():
+    """Hundreds of tests in progress at once (each with an attachment), finished in reverse order."""
+    for n in (65, 300, 1100):
+        evs = []
+        for k in range(n):
+            evs.append(dict(test_id="t%d" % k, route_code=None, test_status="inprogress", test_tags=None, runnable=True, timestamp=1,
+                            file_name="f", file_bytes=b"%d" % k, eof=True, mime_type="text/plain"))
+        for k in reversed(range(n)):
+            evs.append(dict(test_id="t%d" % k, route_code=None, test_status="success" if k % 3 else "fail", test_tags=None, runnable=True,
+                            timestamp=2, file_name=None, file_bytes=None, eof=False, mime_type=None))
+        yield {"events": evs}
+    # and attachments far beyond any buffer size
+    for size in (5000, 70000, 1 << 20):
+        evs = [dict(test_id="a", route_code=None, test_status=None, test_tags=None, runnable=True, timestamp=1,
+                    file_name="f", file_bytes=bytes([65 + k]) * size, eof=False, mime_type="text/plain") for k in range(3)]
+        evs.append(dict(test_id="a", route_code=None, test_status="fail", test_tags=None, runnable=True, timestamp=2,
+                        file_name=None, file_bytes=None, eof=False, mime_type=None))
+        yield {"events": evs}
+
+
 def _enum_long():
     for n in (1, 63, 64, 65, 66, 130):
         for two in (False, True):
@@ -123,16 +143,29 @@ def run_case(spec):
     # ---- StreamToDict
     reports = []
 
-    def on_test(d):
+    kept = []           # the dicts handed to the callback, looked at again after the run
+
+    def canon_dict(d):
         files = {n: b"".join(c.iter_bytes()) for n, c in d["details"].items()}
-        reports.append(((d["id"], d["status"], frozenset(d["tags"]), d["timestamps"][0], d["timestamps"][1],
-                         tuple(sorted((n, b) for n, b in files.items() if b))),
-                        {n: c.content_type for n, c in d["details"].items()}, len(d["timestamps"])))
+        return (d["id"], d["status"], frozenset(d["tags"]), d["timestamps"][0], d["timestamps"][1],
+                tuple(sorted((n, b) for n, b in files.items() if b)))
+
+    def on_test(d):
+        kept.append(d)
+        reports.append((canon_dict(d), {n: c.content_type for n, c in d["details"].items()}, len(d["timestamps"])))
     s2d = StreamToDict(on_test)
     summ = StreamSummary()
     ext = Ext()
     s2e = StreamToExtendedDecorator(ext)
     lockstep = spec.get("mode") == "lockstep"
+    if spec.get("prelude"):
+        # an earlier run on the very same consumer objects: nothing of it may show up in this one
+        for c in (s2d, summ, s2e):
+            c.startTestRun()
+            for ev in spec["prelude"]:
+                send(c, ev, 0)
+            c.stopTestRun()
+        del reports[:], kept[:], ext.events[:]
     if lockstep:
         # the three consumers are alive at the same time and see every event in turn (as behind a
         # CopyStreamResult): one consumer's bookkeeping must not leak into another's
@@ -154,6 +187,8 @@ def run_case(spec):
     if n_before_stop != len(finals):
         vs.append(V("exactly-once", "StreamToDict-timing", "%d reports before stopTestRun, %d final statuses arrived" % (n_before_stop, len(finals))))
     _check_reports(vs, "StreamToDict", [r[0] for r in reports], finals, flushed)
+    if not vs and [canon_dict(d) for d in kept] != [r[0] for r in reports]:
+        vs.append(V("report-content", "StreamToDict-changed-after-the-callback", "a test dict read again after stopTestRun differs from what the callback saw"))
     if not vs:
         for (canon, cts, nts), rec in zip(reports, finals):
             for name, ct in cts.items():
@@ -220,6 +255,9 @@ def run_case(spec):
                     cur = None
     if cur is not None:
         shape_ok = False
+    run_calls = [e[0] for e in ext.events if e[0] in ("startTestRun", "stopTestRun")]
+    if run_calls != ["startTestRun", "stopTestRun"] or ext.events[0][0] != "startTestRun" or ext.events[-1][0] != "stopTestRun":
+        vs.append(V("extended", "run-bracket", "the wrapped result saw %r around %d other events" % (run_calls, len(ext.events) - len(run_calls))))
     if not shape_ok or any(len(b) != 3 or b[0][1] is not b[1][1] or b[1][1] is not b[2][1] for b in brackets):
         vs.append(V("extended", "bracket-shape", "not one startTest/outcome/stopTest bracket per test: %r" % [e[0] for e in ext.events]))
     else:
@@ -337,8 +375,11 @@ def subchecks(tier):
     gen, k = _enum(2 if q else 3)
     gen4, k4 = _enum4()
     return [
-        Sub("random_streams", run_case, st.fixed_dictionaries({"events": EVENTS, "npos": NPOS, "mode": st.sampled_from(["one-by-one", "lockstep"])}),
-            1200 if q else 150000),
+        Sub("random_streams", run_case, st.fixed_dictionaries({"events": EVENTS, "npos": NPOS, "mode": st.sampled_from(["one-by-one", "lockstep"]),
+                                                               "prelude": st.one_of(st.none(), st.none(), st.lists(streams.event(), max_size=6))}),
+            2500 if q else 150000),
+        Sub("many_open_tests_and_big_attachments", run_case, enum=_enum_many_open, enum_complete=True,
+            note="65 / 300 / 1100 tests in progress at once; attachments of 3 x 5000, 3 x 70000, 3 x 1 MiB bytes"),
         Sub("long_attachments", run_case, enum=_enum_long, enum_complete=True,
             note="one or two tests with 1, 63, 64, 65, 66, 130 chunks of one attachment"),
         Sub("enumerated_streams", run_case, enum=gen, enum_complete=True,
